@@ -471,6 +471,13 @@ def find_function(fullname):
         r = m.nested_function(".".join(parts[i:]))
         if r is not None:
             return r
+        # a method the class inherits: the contract then speaks about the inherited code
+        if len(parts) - i >= 2:
+            c = m.nested_function(".".join(parts[i:-1]))
+            if isinstance(c, ClassInfo):
+                inherited = c.find_method(parts[-1])
+                if inherited is not None:
+                    return inherited
     raise KeyError("function not found in source: " + fullname)
 
 
